@@ -4,7 +4,11 @@ use noodles_cram::{
     codecs::{Encoder, aac, rans_4x8, rans_nx16},
     container::{BlockContentEncoderMap, compression_header::data_series_encodings::DataSeries},
 };
+use noodles_cram::container::compression_header::preservation_map::tag_sets;
+use noodles_sam::alignment::record::data::field::{Tag, Type};
 use vcore::rng::fnv1a;
+
+const TAG_KEYS: [([u8; 2], Type); 5] = [(*b"RG", Type::String), (*b"MD", Type::String), (*b"NM", Type::UInt8), (*b"NM", Type::Int32), (*b"NM", Type::UInt16)];
 
 pub const ALL_SERIES: [DataSeries; 28] = [
     DataSeries::BamFlags,
@@ -91,6 +95,9 @@ pub fn names() -> Vec<String> {
     for e in ["rans4x8:1", "nx16:0x01", "nx16:0xc1", "aac:0x01", "aac:0x41", "bzip2:9"] {
         v.push(format!("rn={e}"));
     }
+    // tag-specific encoders (set_tag_values_encoder) for RG:Z, MD:Z, NM:C, NM:i, NM:S
+    v.push("tags=bzip2:9".into());
+    v.push("tags=none".into());
     v.push("tok".into());
     v.push("tok+none".into());
     v.push("fqz".into());
@@ -133,6 +140,13 @@ pub fn build(name: &str) -> BlockContentEncoderMap {
         "tok+none" => uniform(None).set_data_series_encoder(DataSeries::Names, Some(Encoder::NameTokenizer)).build(),
         "fqz" => BlockContentEncoderMap::builder().set_data_series_encoder(DataSeries::QualityScores, Some(Encoder::Fqzcomp)).build(),
         "fqz+lzma:6" => uniform(encoder("lzma:6")).set_data_series_encoder(DataSeries::QualityScores, Some(Encoder::Fqzcomp)).build(),
+        n if n.starts_with("tags=") => {
+            let mut b = BlockContentEncoderMap::builder();
+            for (t, ty) in TAG_KEYS {
+                b = b.set_tag_values_encoder(tag_sets::Key::new(Tag::new(t[0], t[1]), ty), encoder(&n[5..]));
+            }
+            b.build()
+        }
         n if n.starts_with("qs=") => BlockContentEncoderMap::builder().set_data_series_encoder(DataSeries::QualityScores, encoder(&n[3..])).build(),
         n if n.starts_with("rn=") => BlockContentEncoderMap::builder().set_data_series_encoder(DataSeries::Names, encoder(&n[3..])).build(),
         n if n.starts_with("mixed:") => {
@@ -172,6 +186,13 @@ pub fn encoder_for(name: &str, content_type: u8, content_id: i32) -> String {
         "tok+none" => if names { "tok".into() } else { "none".into() },
         "fqz" => if quals { "fqz".into() } else { "gzip:6".into() },
         "fqz+lzma:6" => if quals { "fqz".into() } else { "lzma:6".into() },
+        n if n.starts_with("tags=") => {
+            let hit = content_type == 4 && TAG_KEYS.iter().any(|(t, ty)| {
+                let c = match ty { Type::String => b'Z', Type::UInt8 => b'C', Type::Int32 => b'i', Type::UInt16 => b'S', _ => 0 };
+                content_id == ((t[0] as i32) << 16) | ((t[1] as i32) << 8) | c as i32
+            });
+            if hit { n[5..].into() } else { "gzip:6".into() }
+        }
         n if n.starts_with("qs=") => if quals { n[3..].into() } else { "gzip:6".into() },
         n if n.starts_with("rn=") => if names { n[3..].into() } else { "gzip:6".into() },
         n if n.starts_with("mixed:") => {
